@@ -74,7 +74,9 @@ func (a *AuthIO) Challenge(challenge []byte) ([]byte, error) {
 // Raw sends an arbitrary reply line and reads one response line (decoded from base64).
 func (a *AuthIO) Raw(line string) ([]byte, error) {
 	a.conn.reply(line)
+	a.conn.inAuth = true
 	l, err := a.conn.readLine()
+	a.conn.inAuth = false
 	if err != nil {
 		return nil, err
 	}
@@ -226,14 +228,15 @@ func (t *tapConn) Read(p []byte) (int, error) {
 }
 
 type connState struct {
-	srv   *Server
-	sess  *Session
-	raw   *tapConn
-	conn  net.Conn
-	br    *bufio.Reader
-	nrep  int
-	step  string
-	wrErr error
+	srv    *Server
+	sess   *Session
+	raw    *tapConn
+	conn   net.Conn
+	br     *bufio.Reader
+	nrep   int
+	step   string
+	wrErr  error
+	inAuth bool
 }
 
 func (c *connState) jitter() {
@@ -283,7 +286,12 @@ func (c *connState) readLine() (string, error) {
 	if strings.ContainsRune(line, 0) {
 		c.sess.violate("nul-in-line", "NUL inside a line: %q", line)
 	}
-	if len(line)+2 > 512 && !strings.HasPrefix(strings.ToUpper(line), "AUTH ") {
+	// RFC 4954 section 4 raises the limit to 12288 octets for AUTH commands and responses
+	limit := 512
+	if c.inAuth || strings.HasPrefix(strings.ToUpper(line), "AUTH ") {
+		limit = 12288
+	}
+	if len(line)+2 > limit {
 		c.sess.violate("line-too-long", "command line of %d octets", len(line)+2)
 	}
 	c.sess.Events = append(c.sess.Events, Event{Dir: "C", Line: line})
